@@ -23,9 +23,10 @@ RULE = (
     "result buffers for np.divide(where=) calls lacking out=; a case is non-trivial when the curves are not all equal; distinct by content hash"
 )
 PARTIAL = [
-    "square roots (norms, standard deviations, sqrt of the weight) are compared through signed squares v*|v|",
+    "square roots (norms, standard deviations, sqrt of the weight) are compared through signed squares v*|v|; the root of the smoothed variance in the irregular standardisation is taken from the implementation",
     "scipy.integrate.simpson is external: under method_integration='simpson' only the post-conditions (unit norm, unit re-estimated weight, component-wise) are sampled",
-    "the smoothers behind the irregular mean / variance (LP, P-splines, np.interp) are parameters: their output is taken from the implementation",
+    "the smoothers behind the irregular mean / variance (LP, P-splines) are parameters (any function; linear ones for the rescaling theorem): their output is taken from the implementation; "
+    "np.interp (the interpolant behind the irregular norm) IS modelled and compared",
     "uninitialised memory is not representable in the model: made observable by heap poisoning and by NaN-initialised buffers substituted from outside for np.divide(where=) without out=",
 ]
 TRUSTED_EXTRA = []
@@ -261,6 +262,8 @@ def _irr_comp(rng: Rng, N, enc=None, lp_only=False):
     m = rng.randint(6, 10)
     U = rng.grid(m, lo=rng.choice([0, 0, -1]), scale=rng.choice([1, 1, 2]))
     X, ck = _curves(rng, N, m, rng.choice(["rand", "smooth", "zerocol"]))
+    amp = rng.choice([Fraction(1), Fraction(1), Fraction(1, 2 ** 6), Fraction(1, 2 ** 20), Fraction(2 ** 10)])  # amplitude over many decades
+    X = [[amp * Fraction(round(x * 64), 64) for x in r] for r in X] if amp != 1 else X
     keep = []
     for _ in range(N):
         k = [True] * m if enc == "complete" else [rng.random() < 0.7 for _ in range(m)]
@@ -531,6 +534,26 @@ def _impl_irreg(case, out, comp=None):
 
     out["vals"] = _call(lambda: _vals(build()))
 
+    def interp():
+        sm = build().smooth(method="interpolation")
+        return dict(U=np.asarray(sm.argvals["input_dim_0"], dtype=float).tolist(), v=np.asarray(sm.values, dtype=float).tolist())
+
+    out["interp"] = _call(interp)
+
+    def std_parts():
+        # what IrregularFunctionalData.standardize divides: the centred samples and the root of the smoothed variance at the own points
+        cen = build().center(**rkw)
+        cov = cen.covariance(**rkw)
+        var = np.diag(cov.values.squeeze())
+        U = np.asarray(cov.argvals["input_dim_0"], dtype=float)
+        sds = []
+        for k in cen.values:
+            pts = np.asarray(cen.argvals[k]["input_dim_0"], dtype=float)
+            sds.append(np.sqrt(var[np.isin(U, pts)]).tolist())
+        return dict(v=_vals(cen), sd=sds)
+
+    out["std_parts"] = _call(std_parts)
+
     def center():
         fd = build()
         c = fd.center(**ckw)
@@ -730,13 +753,22 @@ def model_lines(case, impl):
         return [f"center {X}", f"std {X} {'1' if case['center'] else '0'}", f"weight2 {t1} {t2} {X}", f"normsq2 {t1} {t2} {X}",
                 f"scale {X} {case['w']}", "bvar " + ("2" if kind == "basis2" else "1")]
     if kind == "irreg":
-        c = impl.get("center")
-        if _err(c) or c is None or not all(math.isfinite(x) for x in c["mean"]):
-            return []
         ls = []
-        U, Mv = common.vec(c["mean"] and c["U"]), common.vec(c["mean"])
-        for o in case["obs"]:
-            ls.append(f"isin {U} {Mv} {','.join(o['t'])} {','.join(o['y'])}")
+        for part in _irreg_parts(case, impl):
+            if part == "isin":
+                c = impl["center"]
+                U, Mv = common.vec(c["U"]), common.vec(c["mean"])
+                ls += [f"isin {U} {Mv} {','.join(o['t'])} {','.join(o['y'])}" for o in case["obs"]]
+            elif part == "interp":
+                U = common.vec(impl["interp"]["U"])
+                for o in case["obs"]:
+                    tp = [t for t, y in zip(o["t"], o["y"]) if y != "nan"]
+                    fp = [y for y in o["y"] if y != "nan"]
+                    ls.append(f"interp {','.join(tp)} {','.join(fp)} {U}")
+            elif part == "stdthr":
+                sp = impl["std_parts"]
+                for v, sd in zip(sp["v"], sp["sd"]):
+                    ls.append("stdthr " + common.vec(v) + " " + ",".join("nan" if math.isnan(x) else rs(F(x)) for x in sd))
         return ls
     if kind == "multi":
         ls = ["mnorm " + ",".join("b" if c["type"].startswith("basis") else "g" for c in case["comps"])]
@@ -751,6 +783,22 @@ def model_lines(case, impl):
                 ls += [f"normsq2 {','.join(c['t1'])} {','.join(c['t2'])} {X}", f"weight2 {','.join(c['t1'])} {','.join(c['t2'])} {X}"]
         return ls
     return []
+
+
+def _irreg_parts(case, impl):
+    """Which groups of model requests an irregular case has (each group: one line per curve)."""
+    parts = []
+    c = impl.get("center") if isinstance(impl, dict) else None
+    if c is not None and not _err(c) and all(math.isfinite(x) for x in c["mean"]):
+        parts.append("isin")
+    ip = impl.get("interp") if isinstance(impl, dict) else None
+    if ip is not None and not _err(ip):
+        parts.append("interp")
+    sp = impl.get("std_parts") if isinstance(impl, dict) else None
+    if sp is not None and not _err(sp) and not _err(impl.get("standardize")) and case["enc"] != "nan" \
+            and all(len(v) == len(sd) and all(math.isfinite(x) for x in v) and not any(math.isinf(x) for x in sd) for v, sd in zip(sp["v"], sp["sd"])):
+        parts.append("stdthr")
+    return parts
 
 
 def parse_model(case, outs):
@@ -886,10 +934,35 @@ def _compare(case, impl, model):
         elif not one and trapz and not case["stand"] and not _err(nz):
             ds += _cmp_vec("norm^2 (2-D)", [x * x for x in nz["norm_before"]], pvec(outs[ix["normsq"]]), None)
     elif kind == "irreg":
+        n = len(case["obs"])
+        groups = {part: outs[k * n:(k + 1) * n] for k, part in enumerate(_irreg_parts(case, impl))}
+        if "interp" in groups:
+            # np.interp on the union grid (the interpolant behind .norm) and its squared norm
+            ip = impl["interp"]
+            nz = impl["normalize"]
+            for i, (line, v) in enumerate(zip(groups["interp"], ip["v"])):
+                if line in ("error", "bad"):
+                    ds.append(f"interpolant of curve {i}: model rejects ({line})")
+                    continue
+                vals_, nsq = line.split(" ")
+                d = _cmp_vec(f"interpolant of curve {i}", v, pvec(vals_), None, 1e-12)
+                if d:
+                    ds += d
+                    break
+                if not _err(nz) and not case["stand"] and not close(nz["norm_before"][i] ** 2, F(nsq), max(float(F(nsq)), 1e-300), 1e-9):
+                    ds.append(f"norm^2 of irregular curve {i}: impl {nz['norm_before'][i] ** 2!r} vs norm of the interpolant {float(F(nsq))!r}")
+                    break
+        if "stdthr" in groups:
+            s0 = impl["standardize"]
+            for i, (line, v) in enumerate(zip(groups["stdthr"], s0["v"])):
+                d = _cmp_vec(f"standardize curve {i}", v, pvec(line), None, 1e-12)
+                if d:
+                    ds += d
+                    break
         c = impl["center"]
-        if _err(c):
-            return []
-        for i, (line, v) in enumerate(zip(outs, c["v"])):
+        if _err(c) or "isin" not in groups:
+            return ds
+        for i, (line, v) in enumerate(zip(groups["isin"], c["v"])):
             if line.startswith("error:"):
                 ds.append(f"center curve {i}: model raises {line} (selection has another length than the curve)")
                 continue
@@ -1099,6 +1172,7 @@ def _oracle_irreg(case, impl, bad, comp=None):
         bad("runs", f"building the data raised {vals['error']}", _entry(case, "center"))
         return
     sub = ["subset-labels"] if case.get("sub") else []
+    big = max([abs(a) for x in vals for a in x if math.isfinite(a)] + [1e-300])  # amplitude of the data: thresholds are relative to it
     c = impl["center"]
     if _err(c):
         bad("runs", f"center raised {c['error']}: {c.get('msg')}" + (" on a sub-selection" if sub else ""), _entry(case, "center"), sub)
@@ -1116,7 +1190,7 @@ def _oracle_irreg(case, impl, bad, comp=None):
                 if math.isnan(x[k]):
                     continue
                 exp = x[k] - c["mean"][pos[p]]
-                if not abs(v[k] - exp) <= 1e-12 * max(1.0, abs(x[k]), abs(exp)):
+                if not abs(v[k] - exp) <= 1e-12 * max(big, abs(x[k]), abs(exp)):
                     bad("center_irregular", f"curve {i}, sample {k} (t = {p}): centred value {v[k]} but value - mean(t) = {exp}", _entry(case, "center"))
                     break
             else:
@@ -1127,7 +1201,7 @@ def _oracle_irreg(case, impl, bad, comp=None):
         bad("runs", f"normalize raised {nz['error']}: {nz.get('msg')}", _entry(case, "normalize"), sub)
     else:
         for i, (nb, na) in enumerate(zip(nz["norm_before"], nz["norm_after"])):
-            if nb > 1e-9 and not abs(na - 1) <= 1e-8:
+            if nb > 1e-9 * big and not abs(na - 1) <= 1e-8:
                 bad("normalize_unit", f"irregular observation {i} has norm {na} after normalising", _entry(case, "normalize"))
                 break
     for key, cause in (("standardize", "natural-heap"), ("standardize_adv", "nan-initialised-buffer")):
@@ -1160,14 +1234,14 @@ def _oracle_irreg(case, impl, bad, comp=None):
         bad("runs", f"sequence of operations on one irregular object raised {h['error']}: {h.get('msg')}", _entry(case, "center"), ["history"] + sub)
     if _err(r):
         bad("runs", f"rescale raised {r['error']}: {r.get('msg')}", _entry(case, "rescale"), sub)
-    elif r["w"] > 1e-12 and math.isfinite(r["w"]):
+    elif r["w"] > 1e-12 * big * big and math.isfinite(r["w"]):
         if abs(r["w_again"] - 1) > 1e-7:
             bad("rescale_reestimate_one", f"irregular data: re-estimated weight {r['w_again']} (weight {r['w']})", _entry(case, "rescale"))
     elif not r["w"] >= 0:
         bad("rescale_weight", f"irregular rescale weight {r['w']}", _entry(case, "rescale"), ["nan-weight"])
     rt = impl.get("rescale_transfer")
     if rt is not None and not _err(rt) and rt["ws"] > 0 and math.isfinite(rt["ws"]):
-        okv = all(not math.isfinite(a) or abs(b * math.sqrt(rt["ws"]) - a) <= 1e-9 * max(1.0, abs(a)) for x, v in zip(vals, rt["v"]) for a, b in zip(x, v))
+        okv = all(not math.isfinite(a) or abs(b * math.sqrt(rt["ws"]) - a) <= 1e-9 * max(big, abs(a)) for x, v in zip(vals, rt["v"]) for a, b in zip(x, v))
         if rt["w"] != rt["ws"] or not okv:
             bad("rescale_user_weight", f"irregular data: a weight {rt['ws']} estimated on small-amplitude data and passed as weights= is not used as given "
                 f"(returned {rt['w']})", _entry(case, "rescale"), ["transfer"])
@@ -1177,7 +1251,7 @@ def _oracle_irreg(case, impl, bad, comp=None):
     else:
         w = float(F(case["w"]))
         for v, x in zip(ru["v"], vals):
-            if any(math.isfinite(a) and abs(b * math.sqrt(w) - a) > 1e-12 * max(1.0, abs(a)) for a, b in zip(x, v)) or ru["w"] != w:
+            if any(math.isfinite(a) and abs(b * math.sqrt(w) - a) > 1e-12 * max(big, abs(a)) for a, b in zip(x, v)) or ru["w"] != w:
                 bad("rescale_user_weight", f"irregular rescale(weights={w}) does not divide the values by sqrt(w)", _entry(case, "rescale"))
                 break
 
@@ -1308,6 +1382,7 @@ def classify(case, impl):
         tags += ["irregular:" + case["enc"], "smooth:" + case["smooth"]["method"]]
         if case.get("sub"):
             tags.append("irregular:subselection")
+        tags += ["irregular:model:" + part for part in _irreg_parts(case, impl)]
     if case["kind"] == "multi":
         tags.append("multi:" + case["mix"])
     for c in [case] + list(case.get("comps", [])):
